@@ -116,6 +116,9 @@ def raw_dec(prec, scale, name):
 
 REC1 = {"id": 12345678901, "tag": "B", "u": {"x": 5, "y": 2.5}, "arr": [{"x": 1}, {"x": -2, "y": 0.5}], "m": {"k": "C", "": "A"}, "fx": b"\x00\x01\x02\x03", "opt": "o"}
 REC2 = {"id": -1, "tag": "C", "u": "text é", "arr": [], "m": {}, "fx": b"abcd"}
+OPT1 = {k: v for k, v in REC1.items() if k not in ("u", "opt")}  # nullable "u" and defaulted "opt" left out
+OPT2 = {k: v for k, v in REC1.items() if k != "opt"}
+TUP1 = dict(REC1, u=("c18.In", {"x": 5, "y": None}))
 LOG1 = {"d": dt.date(2024, 2, 29), "ts": dt.datetime(1969, 12, 31, 23, 59, 59, 999000, tzinfo=dt.timezone.utc), "tu": dt.time(23, 59, 59, 999999),
         "id": uuid.UUID(int=0x1234567890ABCDEF1234567890ABCDEF), "fd": decimal.Decimal("-123456789.125")}
 
@@ -234,6 +237,13 @@ class Ops:
             "cread_rec_resolve": lambda: list(fa.reader(io.BytesIO(self.file_rec), reader_schema=copy.deepcopy(RAW_REC2))),
             "validate_rec": lambda: fa.validate(REC1, self.REC),
             "validate_bad": lambda: fa.validate(dict(REC2, tag="ZZ"), self.REC, raise_errors=False),
+            # the same datum judged under different options (omitted nullable field / missing defaulted
+            # field; a 2-tuple that is a branch hint or plain data): each call keeps its own options
+            "validate_opt_loose": lambda: fa.validate(OPT1, self.REC, raise_errors=False),
+            "validate_opt_strict": lambda: fa.validate(OPT1, self.REC, raise_errors=False, strict=True),
+            "validate_opt_allow_default": lambda: fa.validate(OPT2, self.REC, raise_errors=False, strict_allow_default=True),
+            "validate_tuple_hint": lambda: fa.validate(TUP1, self.REC, raise_errors=False),
+            "validate_tuple_plain": lambda: fa.validate(TUP1, self.REC, raise_errors=False, disable_tuple_notation=True),
             "parse_raw": lambda: strip(fa.parse_schema(copy.deepcopy(RAW_REC))),
             "parse_raw2": lambda: strip(fa.parse_schema(copy.deepcopy(RAW_REC2))),
             "pcf_rec": lambda: self.pcf(self.REC),
@@ -372,13 +382,15 @@ def run_shard(spec):
         "swrite": f_swrite,
         "validate": lambda S: fa.validate(fresh_datum, S),
         "sread": lambda S: fa.schemaless_reader(io.BytesIO(fresh_bytes), S),
-        "jwrite": lambda S: (lambda o: (fa.json_writer(o, S, [fresh_datum]), o.getvalue())[1])(io.StringIO()),
+        "jwrite": lambda S: (lambda o: (fa.json_writer(o, S, [fresh_datum, fresh_datum]), o.getvalue())[1])(io.StringIO()),
         "cwrite": lambda S: (lambda o: (fa.writer(o, S, [fresh_datum, fresh_datum], sync_marker=b"\x07" * 16), o.getvalue())[1])(io.BytesIO()),
     }
     for _nm, _kw in (("sread_named_override", {"return_named_type": True, "return_named_type_override": True}),
                      ("sread_record_override", {"return_record_name": True, "return_record_name_override": True}),
                      ("sread_named", {"return_named_type": True})):
         fresh_ops[_nm] = (lambda kw: lambda S: fa.schemaless_reader(io.BytesIO(fresh_bytes), S, **kw))(_kw)
+    fresh_json = fresh_ops["jwrite"](fresh_schema())
+    fresh_ops["jread"] = lambda S: list(fa.json_reader(io.StringIO(fresh_json), S))
     # the fresh parsed schema used as a *reader* schema by both threads (data written by an older version)
     OLD = {"type": "record", "name": "Fresh", "namespace": "c18", "fields": [
         {"name": "e", "type": {"type": "enum", "name": "Big", "symbols": ["S%d" % i for i in range(120)]}},
@@ -408,12 +420,20 @@ def run_shard(spec):
     fnames = sorted(fresh_ops)
     # the two reader-side operations are short: every single-preemption schedule of one of them, in four shards
     # ... and so are the reads with the name-reporting options (shards 4-7)
-    if spec["shard"] < 8:
+    # ... and the first JSON uses of a fresh schema, streams of two records (shards 8-11)
+    if spec["shard"] < 12:
         a, b = [("resolve_sread", "resolve_sread"), ("resolve_sread", "resolve_cread"), ("resolve_cread", "resolve_sread"), ("resolve_cread", "resolve_cread"),
                 ("sread_named_override", "sread_named_override"), ("sread_named_override", "sread_record_override"),
-                ("sread_record_override", "sread_named_override"), ("sread_record_override", "sread_record_override")][spec["shard"]]
-        for pnt in range(1, fnev[a] + 1):
-            if sh.out_of_time() or sh.violations:
+                ("sread_record_override", "sread_named_override"), ("sread_record_override", "sread_record_override"),
+                ("jwrite", "jwrite"), ("jwrite", "jread"), ("jread", "jwrite"), ("jread", "jread")][spec["shard"]]
+        import time as _time
+        # the JSON operations are long: in the quick tier their enumeration gets 40 % of the shard's
+        # time, starting at a point that depends on the seed (the thorough tier covers every point)
+        t_stop = _time.time() + (0.4 if a[0] == "j" and tier == "quick" else 10.0) * spec["time_limit"]
+        first_pnt = rng.randrange(fnev[a]) if a[0] == "j" else 0
+        for k0 in range(fnev[a]):
+            pnt = (first_pnt + k0) % fnev[a] + 1
+            if sh.out_of_time() or sh.violations or _time.time() > t_stop:
                 break
             S2 = fresh_reader_schema() if a in reader_side else fresh_schema()
             run = sched.Run([lambda: fresh_ops[a](S2), lambda: fresh_ops[b](S2)], sched.preempt_points({(0, pnt): 1}))
@@ -423,7 +443,7 @@ def run_shard(spec):
                 sh.count("deadlocked_runs_inconclusive")
                 continue
             sh.count("fresh_schema_schedules")
-            sh.count("fresh_reader_schema_schedules" if a in reader_side else "fresh_schema_option_read_schedules")
+            sh.count("fresh_reader_schema_schedules" if a in reader_side else "fresh_schema_json_schedules" if a[0] == "j" else "fresh_schema_option_read_schedules")
             sh.count("schedules_executed")
             sh.case(h64("fresh-reader", a, b, pnt), True)
             for x, r in zip((a, b), res):
@@ -464,7 +484,10 @@ def run_shard(spec):
                    ("wclass_a", "wclass_b"), ("wclass_b", "wclass_a"), ("block_copy", "wclass_a"), ("block_read", "block_copy"),
                    ("expand_parsed", "swrite_rec"), ("swrite_rec", "expand_parsed"), ("expand_parsed", "validate_rec"), ("expand_parsed", "cread_rec"),
                    ("swrite_all_logical", "sread_all_logical"), ("sread_all_logical", "swrite_all_logical"), ("validate_all_logical", "swrite_all_logical"),
-                   ("swrite_all_logical", "swrite_log"), ("expand_parsed", "expand_parsed"), ("sread_all_logical", "sread_log")]
+                   ("swrite_all_logical", "swrite_log"), ("expand_parsed", "expand_parsed"), ("sread_all_logical", "sread_log"),
+                   ("validate_opt_loose", "validate_opt_strict"), ("validate_opt_strict", "validate_opt_loose"),
+                   ("validate_tuple_hint", "validate_tuple_plain"), ("validate_tuple_plain", "validate_tuple_hint"),
+                   ("validate_opt_allow_default", "validate_opt_strict"), ("validate_opt_strict", "validate_tuple_plain")]
     all_pairs = [(a, b) for a in names for b in names]
     rng.shuffle(all_pairs)
     mine = [p for i, p in enumerate(fixed_pairs) if i % SHARDS == spec["shard"]] + all_pairs[: PAIRS[tier]]
